@@ -12,9 +12,12 @@ INT_POOL = [0, 1, 2, 3, 4, 5, 6, 7, 8, 9, 10, 11, 12, 15, 16, 17, 20, 21, 22, 24
             200, 254, 255, 256, 404, 443, 500, 1000, 1024, 3000, 3600, 4096, 5000, 8080, 8443, 65535, 86400, 1000000,
             0xFE, 0x1E, 0xBEEF, 0xE0, 0x1F32, 0x7F32, 0xF64, 0xABF64, 0x2F32, 0xF32, 0xEF64]
 HEX_TRICKY = [0x1F32, 0x7F32, 0xF64, 0xABF64, 0x2F32, 0xF32, 0xEF64, 0xFE, 0x1E, 0xBEEF, 0xE0, 0xE, 0xAF32, 0x10F64]
-FLOAT_TEXTS = ["0.5", "1.5", "2.5", "3.14", "0.25", "2.71828", "99.9", "0.001", "10.5", "1.414", "7.25"]
+FLOAT_TEXTS = ["0.5", "1.5", "2.5", "3.14", "0.25", "2.71828", "99.9", "0.001", "10.5", "1.414", "7.25",
+               # many significant digits, large and tiny magnitudes: the message must name the value, not a rounding of it
+               "3.14159265", "1234567.5", "299792.458", "0.000123456789", "6.02214076", "86400.125", "0.30000000000000004", "123456789.25"]
 # (mantissa, exponent) pairs for scientific notation
-EXP_PARTS = [("1", "3"), ("2.5", "-3"), ("1", "6"), ("5", "2"), ("25", "-1"), ("1.5", "2"), ("7", "0"), ("12", "-2"), ("3", "1")]
+EXP_PARTS = [("1", "3"), ("2.5", "-3"), ("1", "6"), ("5", "2"), ("25", "-1"), ("1.5", "2"), ("7", "0"), ("12", "-2"), ("3", "1"),
+             ("6.62607015", "-34"), ("1.2345678", "7"), ("9.10938356", "-31")]
 
 RS_INT_SUF_SMALL = ["u8", "i8"]
 RS_INT_SUF = ["u16", "u32", "u64", "u128", "usize", "i16", "i32", "i64", "i128", "isize"]
